@@ -11,7 +11,7 @@ RULE = ("finite-domain enumeration, every case distinct by construction: (cp) ev
         "(reference UTF-8 well-formedness model in the harness). Failing code points are merged into maximal ranges (one class key per "
         "range and failure word); only minimal failing sequences are reported. Non-trivial = code points that at least one escaper changes; "
         "sequences not made of the letter 'a' only; byte strings containing a byte >= 0x80.")
-DEADLINE = {"quick": 150, "thorough": 1500}
+DEADLINE = {"quick": 90, "thorough": 1200}
 
 
 def build(ctx):
